@@ -4,7 +4,8 @@ A scenario: a shared scen.py type system + CAS (1-3 views), the set of user type
 given to the reader (closed under subtypes and under "a kept type has a feature whose range was deleted"), the lenient flag,
 and whether references from kept to dropped structures were cleared before saving ("closed", the quantifier of the property)
 or left in the document ("dangling": then both sides must fail alike).
-  document   cassis' own to_xmi output for the FULL type system (bytes), parsed by xmlabs for the model
+  document   cassis' own to_xmi output for the FULL type system, in two thirds of the cases re-written by xmlabs with the
+             elements in another order (views and sofas first, reversed, shuffled: a View may precede its members)
   run        load_cas_from_xmi(bytes, reduced type system, lenient=flag)  ->  error kind | scen.canon + add outcomes
   oracle     strict + an element of a deleted type        -> TypeNotFoundError
              lenient                                       -> same outcome as loading, strictly, the document filtered by
@@ -36,7 +37,7 @@ RULE = (
     "scen.py type systems (3-8 user types, awkward names; in a third of the cases the no-namespace type is renamed so that "
     "its short name equals the short name of a namespaced type) and CASes with 1-3 views; every scenario is run for a "
     "random subset of deleted user types (closed under subtypes and feature ranges; also the empty subset) x lenient in "
-    "{True, False}; references from kept to dropped structures are cleared before saving, except in 30% of the cases that have "
+    "{True, False} x element order in {as written, shuffled, views and sofas first, reversed, descending ids}; references from kept to dropped structures are cleared before saving, except in 30% of the cases that have "
     "such references, where they are left dangling; after a successful load a structure of a foreign type (new namespace, and a no-namespace name "
     "equal to the short name of a known type) is added through 4-6 handles. Non-trivial: at least one element of the "
     "document has a deleted type."
@@ -49,6 +50,8 @@ TRUSTED = [
     "the document under test is cassis' own to_xmi output (writer correctness is C01/C04)",
 ]
 ASSUMPTIONS = [
+    "user features are not called sofa, xmiID, elements, head or tail (DESIGN section 6: structural names; Cas.add sets any "
+    "attribute called sofa)",
     "deleted type sets are closed under subtypes and feature ranges (the reduced type system is a type system)",
     "xmi:ids in documents are decimal numbers",
 ]
@@ -181,6 +184,10 @@ def run_impl(cassis, sc):
     cas, _v, _o = scen.build_cas(cassis, ts_full, cspec)
     data = cas.to_xmi().encode("utf-8")
     doc = xmlabs.parse(data)
+    if sc.get("order"):          # the same document with its elements in another order (views / sofas anywhere)
+        idx = c05.order_of(doc, {"order": sc["order"]}, random.Random(sc.get("oseed", 0)))
+        data = xmlabs.write({"root": doc.get("root"), "elems": [doc["elems"][i] for i in idx]})
+        doc = xmlabs.parse(data)
     red = reduce_tspec(sc["tspec"], set(sc["deleted"]))
     schema = scen.schema_of(cassis, red)
     fdoc, gone = filter_doc(doc, schema)
@@ -279,12 +286,18 @@ def generate(rng, tier):
             cleared = clear_dangling(cspec, set(deleted))
             dangling = r.random() < 0.3 and cleared != cspec
             cs = cspec if dangling else cleared
+            order = r.choice([None, None, "shuffle", "sofa_first", "reverse", "desc_id"])
+            oseed = r.randrange(1 << 30)
             for lenient in (True, False):
                 yield {"tspec": tspec, "cspec": cs, "deleted": deleted, "lenient": lenient, "dangling": dangling,
-                       "foreign_short": [s for s in foreign_short if s not in user]}
+                       "order": order, "oseed": oseed, "foreign_short": [s for s in foreign_short if s not in user]}
 
 
 def shrink_candidates(sc):
+    if sc.get("order"):
+        c = json.loads(json.dumps(sc))
+        c["order"] = None
+        yield c
     for o in reversed(sc["cspec"]["objs"]):
         c2 = c05._drop_obj(sc["cspec"], o["o"])
         if c2 is not None:
